@@ -86,7 +86,9 @@ def outcome_text(t) -> str:
         return "CA"
     e = t.exception()
     if e is not None:
-        return "X" + kind_of(e)
+        # a Future holding a CancelledError instance (as_future of a body that raised it in the
+        # prefix) and a cancelled Task give the same thing to whoever awaits them
+        return "CA" if kind_of(e) == "CA" else "X" + kind_of(e)
     return "R" + str(Env.val(t.result()))
 
 
